@@ -36,8 +36,15 @@ def run_kani_units(prop, units, tier, log):
     results, meta = [], dict(cmds=[], wall=0.0, harnesses=[])
     if not units:
         return results, meta
+    crate_root = {'qbase': 'qbase/src/lib.rs', 'qrecovery': 'qrecovery/src/lib.rs', 'qcongestion': 'qcongestion/src/lib.rs',
+                  'qconnection': 'qconnection/src/lib.rs', 'qdatagram': 'qdatagram/src/lib.rs', 'qinterface': 'qinterface/src/lib.rs',
+                  'qevent': 'qevent/src/lib.rs'}
+    crates = sorted({u['crate'] for u in units})
+    canary_units = [dict(unit='_canary_' + c, dir=os.path.join(common.CONTRACTS, '_shared'), crate=c, properties=[prop],
+                         splices=[dict(file=crate_root[c], append='kani_canary.rs')], harnesses=[]) for c in crates if c in crate_root]
+    meta['ledger'] = kani_run.ledger(units)
     with Lock('kani'):
-        kani_run.materialise(units)
+        kani_run.materialise(units + canary_units)
         by_crate = {}
         for u in units:
             for h in u['harnesses']:
@@ -45,10 +52,28 @@ def run_kani_units(prop, units, tier, log):
                     by_crate.setdefault(u['crate'], []).append((u, h))
         for crate, hs in by_crate.items():
             tmo = max(h.get('timeout_s', 600) for _, h in hs) * (3 if tier == 'thorough' else 1)
-            rc, out, wall, cmd = kani_run.run_crate(crate, [h for _, h in hs], timeout_s=tmo)
+            canary = [dict(name='vp_canary::must_fail')] if crate in crate_root else []
+            rc, out, wall, cmd = kani_run.run_crate(crate, [h for _, h in hs] + canary, timeout_s=tmo)
             meta['cmds'].append(cmd)
             meta['wall'] += wall
             parsed = kani_run.parse_terse(out)
+            if canary and parsed:
+                cn = [k for k in parsed if k.endswith('vp_canary::must_fail')]
+                ok = cn and parsed[cn[0]]['status'] == 'FAILED' and any('VP-CANARY' in d for d, _ in parsed[cn[0]]['failed'])
+                meta.setdefault('canary', {})[crate] = 'rejected' if ok else 'ACCEPTED'
+                if not ok:
+                    log(out[-4000:])
+                    raise Undecided(f"vacuity guard: the deliberately false Kani canary harness in {crate} was not refuted")
+            if tier == 'thorough' and parsed:
+                # cross-solver re-run: every harness must get the same verdict from kissat as from cadical
+                rc2, out2, wall2, cmd2 = kani_run.run_crate(crate, [h for _, h in hs], timeout_s=tmo, extra=['--solver', 'kissat'])
+                meta['cmds'].append(cmd2)
+                meta['wall'] += wall2
+                p2 = kani_run.parse_terse(out2)
+                for k, v in parsed.items():
+                    if k in p2 and p2[k]['status'] != v['status'] and not k.endswith('vp_canary::must_fail'):
+                        raise Undecided(f"solver disagreement on {k}: cadical={v['status']} kissat={p2[k]['status']}")
+                meta['cross_solver'] = 'kissat agrees on %d harnesses' % len(p2)
             if not parsed:
                 log(out[-6000:])
                 if kani_run.compile_failed(out):
@@ -243,6 +268,9 @@ def decide(prop, tier, only_unit=None, verbose=False):
             'tool_wall_s': {'kani': metas.get('kani', {}).get('wall'),
                             'verus': sum(m.get('wall', 0) for m in metas.get('verus', []))},
             'kani_harnesses': metas.get('kani', {}).get('harnesses', []),
+            'kani_assumption_ledger': metas.get('kani', {}).get('ledger', []),
+            'kani_vacuity_canary': metas.get('kani', {}).get('canary'),
+            'kani_cross_solver': metas.get('kani', {}).get('cross_solver'),
             'verus_units': [{k: m.get(k) for k in ('unit', 'verified', 'errors', 'rewrites', 'extracted', 'ledger',
                                                   'smt_time_ms', 'vacuity_canary')}
                             for m in metas.get('verus', [])],
